@@ -515,6 +515,25 @@ func (w *World) checkC13() error {
 	for _, kv := range dump {
 		raw[string(kv.K)] = kv.V
 	}
+	// prefix-exactness of the listings: a topic name the owner does not have -- the empty name,
+	// or a strict prefix of one of the owner's names -- lists no writers
+	for _, tk := range sortedKeys(w.AOL.Topics) {
+		t := w.AOL.Topics[tk]
+		names := map[string]bool{"": true}
+		for i := 1; i < len(t.Name); i++ {
+			names[t.Name[:i]] = true
+		}
+		for _, nm := range sortedKeys(names) {
+			if w.AOL.Topic(t.Owner, nm) != nil || w.AOL.Dangling[tkey(t.Owner, nm)] != nil || len(nm) > 70 {
+				continue
+			}
+			q := w.C.Query(pathAolWriters, &aoltypes.QueryWritersRequest{OwnerAddress: bech(t.Owner), TopicName: nm}, 0)
+			var resp aoltypes.QueryWritersResponse
+			if q.Code == 0 && resp.Unmarshal(q.Value) == nil && len(resp.WriterAddresses) > 0 {
+				return vio("C13", "the writers listing of <%x,%q>, a topic that does not exist (its name is a prefix of %q), returns %d writers of other topics", t.Owner, nm, t.Name, len(resp.WriterAddresses))
+			}
+		}
+	}
 	// counters
 	ownerTopics := map[string]int{}
 	for _, tk := range sortedKeys(w.AOL.Topics) {
